@@ -1,12 +1,10 @@
 CONSTANTS MaxSteps = 3
           Stride = 8
-          PoolStride = 601
+          PoolStride = 97
           ZStride = 25
-          Gen = FALSE
+          Gen = TRUE
           Form = "pairs"
           Memo = "none"
           Variant = "plain"
-SPECIFICATION Spec
-INVARIANT TypeOK
-INVARIANT SessionLaw
-PROPERTY CallsLeavePool
+INIT Init
+NEXT Next
